@@ -61,7 +61,12 @@ class Harness(cm.BaseB):
         # the same trough declared through the generic constructor
         lw2 = rt.Labware("L", 1, C, min_volume=0, max_volume=10, virtual_rows=Vr)
         o2, k2, v2 = self.geometry(lw2, Geo("L", "trough", Vr, C), f"trough {Vr}vx{C} via Labware(virtual_rows=...)")
-        return o1, k1, v1 + v2
+        # instances must not share state: a plate with the same dimensions built after the troughs, and the
+        # first trough once more after the plate
+        lw3 = rt.Labware("L", Vr, C, min_volume=0, max_volume=10)
+        o3, k3, v3 = self.geometry(lw3, Geo("L", "plate", Vr, C), f"plate {Vr}x{C} constructed after a trough of the same dimensions")
+        o4, k4, v4 = self.geometry(lw, Geo("L", "trough", Vr, C), f"trough {Vr}vx{C} after a plate of the same dimensions was constructed")
+        return o1, k1, v1 + v2 + v3 + v4
 
     def geometry(self, lw, g, what):
         V = []
@@ -110,6 +115,11 @@ class Harness(cm.BaseB):
         if sorted(seen_evo) != list(range(1, R * C + 1)):
             V.append(("C08/not-surjective", f"{what}: EVO positions are not 1..{R * C}"))
         if not g.is_trough:
+            # whatever a caller does to the objects it was handed must not leak into later results
+            junk_d, junk_a = rt.make_well_index_dict(R, C), rt.make_well_array(R, C)
+            junk_d.clear()
+            junk_d["A01"] = (7, 7)
+            junk_a[...] = "X00"
             arr = rt.make_well_array(R, C)
             d = rt.make_well_index_dict(R, C)
             if arr.shape != (R, C) or (arr != wells).any():
